@@ -114,6 +114,16 @@ func main() {
 			}
 		}
 		fmt.Printf("generic ok steps=%d arities=1..12\n", total)
+	case "builderarm":
+		// random builder / registration / lock / use sequences on one generic filter against the documented semantics
+		seed, _ := strconv.ParseUint(os.Args[2], 10, 64)
+		rounds, _ := strconv.Atoi(os.Args[3])
+		steps, err := builderArm(seed, rounds)
+		if err != nil {
+			fmt.Println("BUILDER-ARM FAILURE:", err)
+			os.Exit(3)
+		}
+		fmt.Printf("builder arm ok steps=%d rounds=%d\n", steps, rounds)
 	case "genericfixed":
 		// the fixed scenarios of the generic arm only (Map, Exchange, Resource vs. the core)
 		if err := genericFixed(); err != nil {
